@@ -2,6 +2,7 @@ package exec
 
 import (
 	"fmt"
+	"sort"
 	"math"
 	"strconv"
 	"strings"
@@ -723,6 +724,9 @@ type c04Case struct {
 	// GoInputs: the input object types are bound to Go struct types with RegisterType, the
 	// resolver then receives a *struct instead of a map
 	GoInputs bool `json:"go_inputs,omitempty"`
+	// Prime: the request is parsed once and resolved with these variable values before it is
+	// resolved - the same parsed Executable - with Vars
+	Prime []hx.KV `json:"prime,omitempty"`
 	// second argument (always a good literal) to exercise argument ordering
 	ArgT2 *hx.TRef `json:"arg_type2,omitempty"`
 	W2    *hx.Val  `json:"written2,omitempty"`
@@ -731,13 +735,14 @@ type c04Case struct {
 
 // embedVars replaces some leaves of a literal by variables (nested channel); returns the new
 // literal, the variable definitions text and values.
-func embedVars(t *rapid.T, s *hx.Schema, tr *hx.TRef, w hx.Val, defs *[]string, vals *[]hx.KV, label string, n *int) hx.Val {
+func embedVars(t *rapid.T, s *hx.Schema, tr *hx.TRef, w hx.Val, defs *[]string, vals *[]hx.KV, label string, n *int, types map[string]*hx.TRef) hx.Val {
 	if w.IsNil() {
 		return w
 	}
 	mk := func(tt *hx.TRef, v hx.Val) hx.Val {
 		*n++
 		name := fmt.Sprintf("v%d", *n)
+		types[name] = tt
 		if rapid.Bool().Draw(t, label+name+"dflt") {
 			*defs = append(*defs, fmt.Sprintf("$%s: %s = %s", name, tt, hx.ValueSDL(v)))
 		} else {
@@ -752,7 +757,7 @@ func embedVars(t *rapid.T, s *hx.Schema, tr *hx.TRef, w hx.Val, defs *[]string, 
 	if tr.List != nil && w.K == "list" {
 		out := make([]hx.Val, len(w.L))
 		for i, e := range w.L {
-			out[i] = embedVars(t, s, tr.List, e, defs, vals, fmt.Sprintf("%s_%d", label, i), n)
+			out[i] = embedVars(t, s, tr.List, e, defs, vals, fmt.Sprintf("%s_%d", label, i), n, types)
 		}
 		return hx.List(out...)
 	}
@@ -761,7 +766,7 @@ func embedVars(t *rapid.T, s *hx.Schema, tr *hx.TRef, w hx.Val, defs *[]string, 
 		for i, kv := range w.M {
 			out[i] = kv
 			if f := td.Input(kv.Key); f != nil {
-				out[i].V = embedVars(t, s, f.Type, kv.V, defs, vals, label+kv.Key, n)
+				out[i].V = embedVars(t, s, f.Type, kv.V, defs, vals, label+kv.Key, n, types)
 			}
 		}
 		return hx.Map(out...)
@@ -800,6 +805,10 @@ func genCaseC04(t *rapid.T) *c04Case {
 	}
 	var defs []string
 	var argText string
+	varTypes := map[string]*hx.TRef{}
+	if c.Channel == "var" || c.Channel == "default" {
+		varTypes["v"] = c.ArgT
+	}
 	switch c.Channel {
 	case "literal":
 		argText = hx.ValueSDL(w)
@@ -826,8 +835,22 @@ func genCaseC04(t *rapid.T) *c04Case {
 		}
 	case "nested":
 		n := 0
-		lit := embedVars(t, s, c.ArgT, w, &defs, &c.Vars, "e", &n)
+		lit := embedVars(t, s, c.ArgT, w, &defs, &c.Vars, "e", &n, varTypes)
 		argText = hx.ValueSDL(lit)
+	}
+	if len(varTypes) > 0 && rapid.IntRange(0, 2).Draw(t, "reuse") == 0 {
+		// the parsed request was resolved before with other (good) values of its variables
+		names := make([]string, 0, len(varTypes))
+		for n := range varTypes {
+			names = append(names, n)
+		}
+		sort.Strings(names)
+		pg := &wgen{t: t, s: s, varCh: true}
+		for _, n := range names {
+			if pv := pg.good(varTypes[n], "prime"+n); !pv.IsNil() {
+				c.Prime = append(c.Prime, hx.KV{Key: n, V: pv})
+			}
+		}
 	}
 	args := "a: " + argText
 	if second != "" {
@@ -851,7 +874,7 @@ func (c *c04Case) world() (*Case, *hx.Schema) {
 		{ID: 0, Type: "", F: map[string]hx.Val{"query": hx.Ref(1)}},
 		{ID: 1, Type: "Query", F: map[string]hx.Val{"f": hx.Str("ok"), "z": hx.I32(5)}},
 	}}
-	cs := &Case{Schema: s, Graph: g, Text: c.Text, Op: "Q", Vars: c.Vars}
+	cs := &Case{Schema: s, Graph: g, Text: c.Text, Op: "Q", Vars: c.Vars, PrimeVars: c.Prime}
 	for range g.Nodes {
 		if c.Strat == "A" {
 			cs.Assign = append(cs.Assign, "A")
@@ -945,7 +968,7 @@ func TestC04(t *testing.T) {
 	run := hx.NewRun("C04")
 	defer run.Flush()
 	classes := func(c *c04Case, verdict string, invoked bool) (bool, []string) {
-		cl := []string{"channel=" + c.Channel, "strategy=" + c.Strat, "verdict=" + verdict, "base=" + c.ArgT.BaseName(), fmt.Sprintf("go-inputs=%v", c.GoInputs),
+		cl := []string{"channel=" + c.Channel, "strategy=" + c.Strat, "verdict=" + verdict, "base=" + c.ArgT.BaseName(), fmt.Sprintf("go-inputs=%v", c.GoInputs), fmt.Sprintf("parsed-request-resolved-before=%v", len(c.Prime) > 0),
 			c.ArgT.BaseName() + "/" + verdict + "/" + c.Channel}
 		if invoked {
 			cl = append(cl, "resolver-invoked")
